@@ -224,6 +224,13 @@ def sphereGridBox (r : K) (n : Nat) : List (K × K × K) :=
       (boxAxis r m (idx % m), boxAxis r m ((idx / m) % m), boxAxis r m (idx / (m * m)))).filter
     fun p => le (p.1 * p.1 + p.2.1 * p.2.1 + p.2.2 * p.2.2) (r * r)
 
+/-- `Sphere.sample_grid` with `n`: for `n > 10` the nodes of the box mesh inside the ball (moved to the centre),
+    cut to the first `n` (fix 94ff128) or topped up with random ball samples (`topup` = their draws) -/
+def sphereGridPts (cx cy cz r : K) (n : Nat) (topup : List (K × K × K)) : List (K × K × K) :=
+  let box := if n > 10 then (sphereGridBox r n).map (fun p => (p.1 + cx, p.2.1 + cy, p.2.2 + cz)) else []
+  if n ≤ box.length then box.take n
+  else box ++ (topup.take (n - box.length)).map fun u => sphereSample cx cy cz r u.1 u.2.1 u.2.2
+
 end param
 
 /-! ### one-row primitive samplers on domain expressions
@@ -320,12 +327,8 @@ def primGrid : Dom K → Env K → Nat → List (List K) → Option (List (Env K
   | .sphere v c r, ρ, n, topup =>
     match c.f ρ, r.f ρ with
     | [cx, cy, cz], [rr] =>
-      let box := if n > 10 then (sphereGridBox rr n).map (fun p => (p.1 + cx, p.2.1 + cy, p.2.2 + cz)) else []
-      if n ≤ box.length then some ((box.take n).map fun p => [(v, [p.1, p.2.1, p.2.2])])   -- fix 94ff128
-      else
-        let rnd := (topup.take (n - box.length)).filterMap fun
-          | [u1, u2, u3] => some (sphereSample cx cy cz rr u1 u2 u3) | _ => none
-        some ((box ++ rnd).map fun p => [(v, [p.1, p.2.1, p.2.2])])
+      some ((sphereGridPts cx cy cz rr n (topup.filterMap fun | [u1, u2, u3] => some (u1, u2, u3) | _ => none)).map
+        fun p => [(v, [p.1, p.2.1, p.2.2])])
     | _, _ => none
   | .bdry (.interval v lb ub), ρ, n, _ =>
     match lb.f ρ, ub.f ρ with
